@@ -270,6 +270,7 @@ func (fr *Frame) model(site ssa.Instruction, ce callee, c *ssa.CallCommon, st *S
 	case "(*sync.RWMutex).RLock":
 		m := fr.val(c.Args[0])
 		hv := vc.heapVar("$rheld", "(Array Int Int)")
+		vc.assume(*reach, fmt.Sprintf("(>= (select %s %s) 0)", vc.look(st, hv), m))
 		vc.set(st, hv, vc.hsort[hv], fmt.Sprintf("(store %s %s (+ (select %s %s) 1))", vc.look(st, hv), m, vc.look(st, hv), m))
 		return nil, true
 	case "(*sync.RWMutex).RUnlock":
